@@ -162,15 +162,22 @@ func interopsFromSource(repo string) ([]srcInterop, error) {
 					}
 					switch k.Key.(*ast.Ident).Name {
 					case "Name":
-						sel, ok := k.Value.(*ast.SelectorExpr)
-						if !ok {
-							return nil, fmt.Errorf("interop name is not interopnames.X")
+						switch nv := k.Value.(type) {
+						case *ast.SelectorExpr:
+							v, ok := names[nv.Sel.Name]
+							if !ok {
+								return nil, fmt.Errorf("unknown interop name constant %s", nv.Sel.Name)
+							}
+							it.name, haveName = v, true
+						case *ast.BasicLit:
+							v, err := strconv.Unquote(nv.Value)
+							if err != nil {
+								return nil, fmt.Errorf("bad interop name literal %s", nv.Value)
+							}
+							it.name, haveName = v, true
+						default:
+							return nil, fmt.Errorf("interop name is neither interopnames.X nor a literal")
 						}
-						v, ok := names[sel.Sel.Name]
-						if !ok {
-							return nil, fmt.Errorf("unknown interop name constant %s", sel.Sel.Name)
-						}
-						it.name, haveName = v, true
 					case "RequiredFlags":
 						v, ok := evalFlags(k.Value, -1)
 						if !ok || v < 0 {
